@@ -137,6 +137,10 @@ func walkStore(stagingRoot string, paths []string) []any {
 		table[pathHash(p)] = p
 	}
 	out := []any{}
+	// never look through a staging root that is not a real directory
+	if info, err := os.Lstat(stagingRoot); err != nil || !info.IsDir() {
+		return out
+	}
 	top, err := os.ReadDir(stagingRoot)
 	if err != nil {
 		return out
